@@ -199,6 +199,9 @@ func vsOpenDB(path string) (storage.Storage, error) {
 
 type vsPoolCfg struct {
 	V6      bool   `json:"v6"`
+	// NoV4: IPv6-only pool (with V6). Config.Validate admits only ipv4 and dual, so this
+	// is outside the documented configuration space; C04 explores it as extra coverage.
+	NoV4    bool   `json:"no_v4,omitempty"`
 	Cap     int    `json:"cap"`
 	Batch   int    `json:"batch"`
 	MinIdle int    `json:"min_idle"`
@@ -325,8 +328,9 @@ func vsStart(cfg vsPoolCfg, cloud *cloudsim.Cloud, k *vsK8s, dir, dbPath string)
 	w.db = db
 	w.store = &vsStore{inner: db}
 	cloud.NoV6 = !cfg.V6
+	cloud.NoV4 = cfg.NoV4
 
-	pc := &daemon.PoolConfig{EnableIPv4: true, EnableIPv6: cfg.V6, MaxIPPerENI: cfg.Cap, BatchSize: cfg.Batch,
+	pc := &daemon.PoolConfig{EnableIPv4: !cfg.NoV4, EnableIPv6: cfg.V6, MaxIPPerENI: cfg.Cap, BatchSize: cfg.Batch,
 		MinPoolSize: cfg.MinIdle, MaxPoolSize: cfg.MaxIdle}
 	fac := cloud.Factory()
 	attached, _ := fac.GetAttachedNetworkInterface("")
@@ -366,7 +370,7 @@ func vsStart(cfg vsPoolCfg, cloud *cloudsim.Cloud, k *vsK8s, dir, dbPath string)
 		k8s:        k,
 		resourceDB: w.store,
 		eniMgr:     mgr,
-		enableIPv4: true,
+		enableIPv4: !cfg.NoV4,
 		enableIPv6: cfg.V6,
 		ipamType:   types.IPAMTypeDefault,
 	}
